@@ -2,6 +2,7 @@ package sym
 
 import (
 	"fmt"
+	"math/big"
 
 	"golang.org/x/tools/go/ssa"
 
@@ -12,7 +13,8 @@ import (
 // abstractURem. x*y with both factors symbolic is replaced by a fresh integer p (one per unordered pair of
 // factor terms on the path) constrained only by facts that hold for the real product:
 //
-//	x=0 or y=0 => p=0;  x=1 => p=y;  y=1 => p=x;  sign rules;  x>=1 and y>=1 => p>=x and p>=y.
+//	x=0 or y=0 => p=0;  x=1 => p=y;  y=1 => p=x;  sign rules;  x>=1 and y>=1 => p>=x and p>=y;
+//	0<=x and 0<=y<=M => p<=x*M for M in {2^32-1, 2^64-1} (and symmetrically).
 //
 // This over-approximates multiplication, so every obligation proved under it holds for the real product
 // (the code under test and the reference meet in the same p when they multiply the same two terms). A
@@ -47,6 +49,13 @@ func (it *Interp) abstractMul(x, y *smt.Term) *smt.Term {
 	it.addPC(c.Implies(c.Or(c.And(xPos, yPos), c.And(xNeg, yNeg)), c.Ge(p, zero)))
 	it.addPC(c.Implies(c.Or(c.And(xPos, yNeg), c.And(xNeg, yPos)), c.Le(p, zero)))
 	it.addPC(c.Implies(c.And(c.Ge(x, one), c.Ge(y, one)), c.And(c.Ge(p, x), c.Ge(p, y))))
+	// linear upper bounds for the usual machine-sized factors (keeps 256-bit overflow checks decidable)
+	for _, bits := range []uint{32, 64} {
+		m := new(big.Int).Sub(new(big.Int).Lsh(big.NewInt(1), bits), big.NewInt(1))
+		mc := c.IntConst(m)
+		it.addPC(c.Implies(c.And(xPos, c.And(yPos, c.Le(y, mc))), c.Le(p, c.Mul(x, mc))))
+		it.addPC(c.Implies(c.And(yPos, c.And(xPos, c.Le(x, mc))), c.Le(p, c.Mul(y, mc))))
+	}
 	it.P.Exact = append(it.P.Exact, c.Eq(p, c.Mul(x, y)))
 	return p
 }
